@@ -2,13 +2,14 @@ package engine
 
 import (
 	"fmt"
+	"go/constant"
 	"go/token"
+	"go/types"
+	"golang.org/x/tools/go/ssa"
 	"reflect"
 	"regexp"
 	"sort"
 	"strings"
-	"go/constant"
-	"go/types"
 )
 
 func init() {
@@ -34,7 +35,7 @@ func init() {
 			"Not covered: the (ambiguous) treatment of top-level slices as outermost.",
 		Assume:  []string{"Go map lookup semantics"},
 		Trusted: []string{"go/types", "go/ssa"},
-		Run:     func(c *Ctx) { runC16(c); runC16More(c); sharedDeclaredRules(c); base(c, "STATE", "LOOP", "TEXT") },
+		Run:     func(c *Ctx) { runC16(c); runC16More(c); runC16Delegate(c); sharedDeclaredRules(c); base(c, "STATE", "LOOP", "TEXT") },
 	})
 }
 
@@ -173,6 +174,8 @@ func runC18(c *Ctx) {
 				decBad = append(decBad, "the query is decoded with url.PathUnescape: a blank encoded as '+' reaches the rule functions as '+', so the same value is judged differently than through the other entry points")
 			case strings.Contains(rc.v, `strings.Split("", `):
 				// the URL had no query part: the only "parameter" is cut out of the empty string
+			case nestedCall(rc.v, "net/url.QueryUnescape("):
+				decBad = append(decBad, "a URL parameter value is percent-decoded more than once: a value that still contains %XX after the first decoding (\"%2541\" -> \"%41\") is changed again, so it is measured differently than through the other entry points")
 			case !strings.Contains(rc.v, "net/url.QueryUnescape("):
 				decBad = append(decBad, "a URL parameter value reaches the rule functions without query percent-decoding: "+shorten(rc.v, 300))
 			}
@@ -191,6 +194,45 @@ func runC18(c *Ctx) {
 					}
 				}
 			}
+		}
+		// the text walked is the caller's string as given: the URL entry point hands its argument
+		// (string, or the pointee of *string) to the walker without transforming it
+		if vv := c.P.Method("valid", "VUrl", "Valid"); vv != nil {
+			var tb []string
+			nCalls := 0
+			for _, b := range vv.Blocks {
+				for _, ins := range b.Instrs {
+					call, ok := ins.(*ssa.Call)
+					if !ok {
+						continue
+					}
+					if cal := staticCallee(&call.Call); cal == nil || cal.Name() != "validate" || recvNamed(cal) == nil || recvNamed(cal).Obj().Name() != "VUrl" {
+						continue
+					}
+					nCalls++
+					seen := map[ssa.Value]bool{}
+					var walk func(v ssa.Value, d int)
+					walk = func(v ssa.Value, d int) {
+						if v == nil || seen[v] || d > 6 {
+							return
+						}
+						seen[v] = true
+						switch x := v.(type) {
+						case *ssa.Phi:
+							for _, e := range x.Edges {
+								walk(e, d+1)
+							}
+						case *ssa.Extract, *ssa.TypeAssert, *ssa.UnOp, *ssa.Const, *ssa.Parameter, *ssa.ChangeType:
+						case *ssa.Call:
+							tb = append(tb, "the URL is passed through "+calleeName(&x.Call)+" before it is walked: the value of the last parameter (or the whole text) can differ from what the caller supplied")
+						default:
+							tb = append(tb, fmt.Sprintf("the URL handed to the walker is a %T, not the caller's string", v))
+						}
+					}
+					walk(call.Call.Args[1], 0)
+				}
+			}
+			c.Check(len(tb) == 0 && nCalls > 0, "C18-URL", "(*valid.VUrl).Valid", "text-as-given", vv.Pos(), "the caller's string reaches the walker untransformed", uniqJoin(tb, 2))
 		}
 		c.Check(len(carried) == 0, "C18-URL", "(*valid.VUrl).validate", "own-text", urlPos, "key and value are cut from the parameter's own text", uniqJoin(carried, 2))
 		c.Check(len(decBad) == 0, "C18-URL", "(*valid.VUrl).validate", "query-decoding", urlPos, "values are query-decoded (url.QueryUnescape)", uniqJoin(decBad, 1))
@@ -437,5 +479,34 @@ func runFieldIdentity(c *Ctx, rule string) {
 		}
 		check(fld, val, c.P.Pos(instrPos(we.E.Site)))
 	}
+	runC04CacheRule(c, rule) // and entry.offset is the index of the field whose name/tag the entry holds
 	c.Check(len(bad) == 0 && n > 0, rule, "(*valid.VStruct).validate", "field-identity", token.NoPos, fmt.Sprintf("%d uses of a field value, all read at the entry's own offset", n), uniqJoin(append(bad, fmt.Sprintf("%d uses", n)), 3))
+}
+
+
+// nestedCall: does the expression text contain a call of fn whose argument text itself contains
+// a call of fn (f(... f(...) ...))?
+func nestedCall(expr, fn string) bool {
+	for i := 0; ; {
+		j := strings.Index(expr[i:], fn)
+		if j < 0 {
+			return false
+		}
+		start := i + j + len(fn)
+		depth := 1
+		k := start
+		for k < len(expr) && depth > 0 {
+			switch expr[k] {
+			case '(':
+				depth++
+			case ')':
+				depth--
+			}
+			k++
+		}
+		if strings.Contains(expr[start:k], fn) {
+			return true
+		}
+		i = start
+	}
 }
